@@ -65,8 +65,8 @@ type hLevel struct {
 }
 
 type hier struct {
-	prime, region, zone *hLevel   // zone: the first zone (the one chainworld drives)
-	zones               []*hLevel // every zone of the region (one, or two when the network starts at expansion 1)
+	prime, region, zone *hLevel           // zone: the first zone (the one chainworld drives)
+	zones               []*hLevel         // every zone of the region (one, or two when the network starts at expansion 1)
 	retries             int               // how often an insert had to be repeated
 	primePH             *types.WorkObject // prime's pending header on its tip (carries the exchange rate derived from the tip)
 	eng                 consensus.Engine
@@ -281,7 +281,9 @@ func (h *hier) nextAt(z *hLevel, want int) (*types.WorkObject, error) {
 // prime block - reports it upwards, where each dominant chain builds and stores its own view; the chain of the
 // block's order then inserts it (which appends it down through its subordinates); finally the pending headers are
 // recomputed on the new tips.
-func (h *hier) add(sealed *types.WorkObject) (*types.WorkObject, error) { return h.addAt(h.zone, sealed) }
+func (h *hier) add(sealed *types.WorkObject) (*types.WorkObject, error) {
+	return h.addAt(h.zone, sealed)
+}
 
 func (h *hier) addAt(z *hLevel, sealed *types.WorkObject) (*types.WorkObject, error) {
 	levels := []*hLevel{h.prime, h.region, z}
